@@ -27,12 +27,15 @@ def render (m : Machine) (s : St) (err : String) : String :=
   let ids := jarr (s.cfg.map (fun p => jstr (m.idOf p)))
   let hist := "{" ++ ",".intercalate (s.hist.map (fun kv => jstr (m.idOf kv.1) ++ ":" ++ jarr (kv.2.map (fun p => jstr (m.idOf p))))) ++ "}"
   let tr := jarr (s.trace.reverse.map jstr)
-  "{\"C\":" ++ ids ++ ",\"S\":" ++ jstr s.status ++ ",\"T\":" ++ tr ++ ",\"H\":" ++ hist ++ ",\"E\":" ++ jstr err ++ ",\"X\":" ++ toString s.errors ++ "}"
+  let ctx := "{" ++ ",".intercalate (s.ctx.map (fun kv => jstr kv.1 ++ ":" ++ toString kv.2)) ++ "}"
+  "{\"C\":" ++ ids ++ ",\"S\":" ++ jstr s.status ++ ",\"T\":" ++ tr ++ ",\"H\":" ++ hist ++ ",\"E\":" ++ jstr err ++ ",\"X\":" ++ toString s.errors ++ ",\"K\":" ++ ctx ++ "}"
 
 def errStr : EErr → String
   | .stateNotFound _ => "StateNotFoundError"
   | .invalidConfig _ => "InvalidConfigError"
   | .missingGuard _ => "ImplementationMissingError"
+  | .missingAction _ => "ImplementationMissingError"
+  | .notSupported _ => "NotSupportedError"
 
 def runCmd (s : St) (act : St → St) : St × String :=
   let s' := act { s with trace := [], err := none, errors := 0 }
@@ -44,6 +47,30 @@ def jsonStrings : J → List String
   | .arr xs => xs.filterMap (fun | .str s => some s | _ => none)
   | _ => []
 
+/-- the logic DSL shared with the Python harness (impl.py `RecorderActions` / `make_guard`):
+    guards: valuation table, plus `lt:k:n`, `ge:k:n`, `eq:k:n` over the integer context;
+    actions: built-in names and `missing:*` are not registered; `fail:*` raises; `async:*` is a
+    coroutine; `inc:k`, `set:k:v` update the context; every other name is a marker action. -/
+def mkUEnv (tbl : List (String × GOut)) : UEnv :=
+  { g := fun n c _ev =>
+      match (tbl.find? (fun kv => kv.1 = n)).map (·.2) with
+      | some o => o
+      | none =>
+        match n.splitOn ":" with
+        | ["lt", k, v] => (match v.toInt? with | some i => if ctxGet c k < i then .t else .f | none => .missing)
+        | ["ge", k, v] => (match v.toInt? with | some i => if ctxGet c k ≥ i then .t else .f | none => .missing)
+        | ["eq", k, v] => (match v.toInt? with | some i => if ctxGet c k = i then .t else .f | none => .missing)
+        | _ => .missing
+    a := fun n c _ev =>
+      if (canonicalBuiltin n).isSome then .missing
+      else match n.splitOn ":" with
+        | "missing" :: _ => .missing
+        | "fail" :: _ => .raises
+        | "async" :: _ => .isAsync c
+        | ["inc", k] => .ok (ctxSet c k (ctxGet c k + 1))
+        | ["set", k, v] => (match v.toInt? with | some i => .ok (ctxSet c k i) | none => .ok c)
+        | _ => .ok c }
+
 structure DS where
   m : Option Machine := none
   env : List (String × GOut) := []
@@ -51,7 +78,7 @@ structure DS where
   s : St := {}
 
 def handle (d : DS) (line : String) : DS × String :=
-  let genv : GEnv := fun n => ((d.env.find? (fun kv => kv.1 = n)).map (·.2)).getD .missing
+  let uenv : UEnv := mkUEnv d.env
   if line.startsWith "M " then
     match parseJson (dropPrefix line 2) with
     | .error e => ({ d with m := none, s := {} }, "{\"ok\":false,\"err\":" ++ jstr ("JSON " ++ e) ++ "}")
@@ -96,12 +123,12 @@ def handle (d : DS) (line : String) : DS × String :=
     let go (act : St → St) : DS × String :=
       let (s', e) := runCmd d.s act
       ({ d with s := s' }, render mm s' e)
-    if line = "START" then go (start d.fl mm genv)
-    else if line.startsWith "SEND " then go (send d.fl mm genv (.user (dropPrefix line 5)))
-    else if line.startsWith "AFTER " then go (send d.fl mm genv (.after (dropPrefix line 6)))
+    if line = "START" then go (start d.fl mm uenv)
+    else if line.startsWith "SEND " then go (send d.fl mm uenv (.user (dropPrefix line 5)))
+    else if line.startsWith "AFTER " then go (send d.fl mm uenv (.after (dropPrefix line 6)))
     else if line.startsWith "DONE " then
       match (dropPrefix line 5).splitOn " " with
-      | [t, src] => go (send d.fl mm genv (.done t src))
+      | [t, src] => go (send d.fl mm uenv (.done t src))
       | _ => (d, "{\"err\":\"bad DONE\"}")
     else (d, "{\"err\":\"cmd\"}")
 
